@@ -1,9 +1,9 @@
 package main
 
 import (
-	"io"
 	"errors"
 	"fmt"
+	"io"
 	"strings"
 	"sync"
 	"time"
@@ -169,6 +169,10 @@ func runEvScenario(sc evScenario) (pre, post [][]string, note string) {
 				default:
 				}
 				n.WriteFrameAll(&frame.V2Frame{SequenceNumber: byte(j), SystemID: byte(w), Message: &message.MessageRaw{ID: 1, Payload: []byte{byte(j)}}}) //nolint
+				if j%3 == w%3 {
+					// a write the link refuses when it encodes it (id outside the dialect / no dialect): the channel and its incoming events are not concerned
+					n.WriteMessageAll(&message.MessageRaw{ID: 99999, Payload: []byte{1}}) //nolint
+				}
 				time.Sleep(50 * time.Microsecond)
 			}
 		}(w)
@@ -258,7 +262,7 @@ func genC10(r *rngT, n int, tier string) {
 			}
 			streams = append(streams, st)
 		}
-		sc := evScenario{dn: dn, key: key, streams: streams, mode: mode, writers: r.Intn(3), seed: r.Int63(), slowCons: r.bool()}
+		sc := evScenario{dn: dn, key: key, streams: streams, mode: mode, writers: r.Intn(4), seed: r.Int63(), slowCons: r.bool()}
 		pre, post, note := runEvScenario(sc)
 		stat("c10-" + mode)
 		if note != "" {
